@@ -113,6 +113,9 @@ func (s *scenario) run() (string, error) {
 	if err != nil {
 		return "process-error: " + err.Error(), nil
 	}
+	// the order of entries of different series in the output depends on Go map iteration inside the engine
+	// (regrouping by fingerprint), not on the schedule: the observation is the multiset of entries
+	var items []string
 	var sb strings.Builder
 	for batch := range sched.RangeChan(out) {
 		for _, e := range batch {
@@ -120,9 +123,10 @@ func (s *scenario) run() (string, error) {
 				continue
 			}
 			if e.Err != nil {
-				fmt.Fprintf(&sb, "ERR(%v);", e.Err)
+				items = append(items, fmt.Sprintf("ERR(%v);", e.Err))
 				continue
 			}
+			sb.Reset()
 			keys := make([]string, 0, len(e.Labels))
 			for k := range e.Labels {
 				keys = append(keys, k)
@@ -133,9 +137,11 @@ func (s *scenario) run() (string, error) {
 				fmt.Fprintf(&sb, "%s=%q,", k, e.Labels[k])
 			}
 			fmt.Fprintf(&sb, "}@%d:%q/%g;", e.TimestampNS, e.Message, e.Value)
+			items = append(items, sb.String())
 		}
 	}
-	return sb.String(), nil
+	sort.Strings(items)
+	return strings.Join(items, ""), nil
 }
 
 func (s *scenario) Run() any {
@@ -239,6 +245,10 @@ func main() {
 	}
 	r := ev.StartPart("C09", os.Getenv("VERIF_PART"), "model_checking", 40*time.Second, 10*time.Minute)
 	r.Rule = "C09s: stateless DFS (engine E1, delay-bounded) over the interleavings of the stage goroutines of the real internal_planner chain, per (pipeline x batching of 5 entries + EOF marker into <= 3 messages x limit); oracle: output equals the output of the deviation-free schedule of the same chain"
+	if r.Replay != "" {
+		replay(r)
+		return
+	}
 	scs := all
 	if !r.Thorough() {
 		scs = scenarios(false)
@@ -265,6 +275,21 @@ func main() {
 	}
 	for _, v := range st.Violations {
 		r.Violate(v.Class, v.Scn+": "+v.What, v)
+	}
+	r.Finish()
+}
+
+func replay(r *ev.Run) {
+	rp, res, outcome, fs, err := sched.ReplayFile(r.Replay, lookup)
+	if err != nil {
+		ev.Fatal("replay: %v", err)
+	}
+	fmt.Println(strings.Join(res.Trace, "\n"))
+	fmt.Println("outcome:", outcome, "failure:", res.Failure)
+	r.AddEval(1)
+	r.States, r.Transitions, r.TracesValidated = int64(len(res.Points)), int64(res.Steps), 1
+	for _, f := range fs {
+		r.Violate(f.Class, f.What, rp)
 	}
 	r.Finish()
 }
